@@ -352,6 +352,12 @@ impl<H: HashImplementation> HashChainHolderImpl<H> {
 
                 best_len = match_length;
                 best_match = Some(r);
+
+                // nothing longer can be found (this happens for a 3 byte match at the very
+                // end of the input that was too far away to be accepted above)
+                if best_len >= max_len {
+                    break;
+                }
             }
 
             max_chain -= 1;
